@@ -174,6 +174,8 @@ def parseOp (ws : List String) : Option Op :=
   | ["as_slice", it] => some (.as_slice it)
   | ["clone_iter", it, itn] => some (.clone_iter it itn)
   | ["serialize", r] => some (.serialize r)
+  | ["clone_from", r, r2] => some (.clone_from r r2)
+  | ["from_str", n] => (natOfS n).map .from_str
   | ["deserialize", r, h, sq] => do some (.deserialize r (← hintOf h) (← seqOf sq))
   | ["deserialize_in_place", r, h, sq] => do some (.deserialize_in_place r (← hintOf h) (← seqOf sq))
   | _ => none
@@ -192,6 +194,7 @@ def showOut : Out → String
   | .elems es => showElems es
   | .errName s => "err " ++ s
   | .err => "err"
+  | .fromStr n => s!"{n} same"
   | .cmp eq pc c heq =>
     (if eq then "eq" else "ne") ++ " " ++ (match pc with | some o => showOrd o | none => "none") ++ " "
       ++ showOrd c ++ " " ++ (if heq then "heq" else "hne")
@@ -256,6 +259,7 @@ def classOf : String → Option Cfg
   | "p4" => some ⟨4, 4, false⟩
   | "s16" => some ⟨16, 8, true⟩
   | "a32" => some ⟨32, 32, true⟩
+  | "a16" => some ⟨16, 16, true⟩
   | "big" => some ⟨2048, 8, true⟩
   | _ => none
 
@@ -272,6 +276,8 @@ def idBound (w : World) : Op → Nat
   | .push .. | .insert .. | .remove_item .. => 1
   | .resize r n _ => 1 + (n - (match w.get r with | some (.vec v) => (if v.isDefault then 0 else v.len) | _ => 0))
   | .resize_with r n _ => n - (match w.get r with | some (.vec v) => (if v.isDefault then 0 else v.len) | _ => 0)
+  | .clone_from _ r =>
+    (match w.get r with | some (.vec v) => (if v.isDefault then 0 else v.len) | _ => 0)
   | .extend_from_within r _ _ | .clone r _ => (match w.get r with | some (.vec v) => (if v.isDefault then 0 else v.len) | _ => 0)
   | .clone_iter it _ => (match w.get it with | some (.intoIter v _) => (if v.isDefault then 0 else v.len) | _ => 0)
   | .deserialize _ _ sc | .deserialize_in_place _ _ sc => (sc.filter (fun i => match i with | .val _ => true | .err => false)).length
